@@ -530,4 +530,12 @@ def rule_attach_from_callback(ctx: Ctx):
     c02.rule_snapshot_iteration(ctx, "C12.same-path")
 
 
-RULES = [rule_allproviders, rule_filter, rule_samepath, rule_dedup, rule_own, rule_engine, rule_inspected_per_object, rule_attach_from_callback]
+def rule_reattach_changes_nothing(ctx: Ctx):
+    """C12.dedup: attaching a listener again changes nothing - neither its calls nor the pass its first attachment is recorded
+    under (which a clone replays)."""
+    from . import c17
+
+    c17.rule_first_attachment(ctx, rule="C12.dedup")
+
+
+RULES = [rule_allproviders, rule_filter, rule_samepath, rule_dedup, rule_own, rule_engine, rule_inspected_per_object, rule_attach_from_callback, rule_reattach_changes_nothing]
